@@ -4,7 +4,9 @@ Tie C: Model/SREvidence.lean (findContentItems, collectEvidence, createReference
 decision logic, get_evidence, KO document, from_segmentation reference builders) against the real classes on
 the same generated (tree, evidence list, class, flags) / (segmentation, request) inputs.
 Tie T: T15a (the two SCOORD3D guards of sr/sop.py and the verification guard of _SR.__init__), T15b (loop body and final
-guard of collect_evidence as a decision over (already seen, referenced)).
+guard of collect_evidence as a decision over (already seen, referenced)), T15c-e (predicates of find_content_items, parsed root
+attributes, enumerations), T15f / T15g (range guards, indices, loop body, merge and choices of the two from_segmentation builders)
+and T15h (guards and recording tests of _SR.__init__): bridges proved in Proofs/SREvidenceTie.lean.
 Oracle (independent of the model): the evidence partition recomputed as Python set algebra from the
 generator's *spec* of the tree (construction parameters) and the evidence list; the content tree compared by
 canonical dataset form in memory and after write -> srread; segmentation references recomputed from the
@@ -17,7 +19,7 @@ import io
 import itertools
 
 PROP = 'C15'
-TARGETS = ['T15a', 'T15b', 'T15c', 'T15d', 'T15e']
+TARGETS = ['T15a', 'T15b', 'T15c', 'T15d', 'T15e', 'T15f', 'T15g', 'T15h']
 LEAN_MODULES = ['HdVerif.Props.C15']
 MODEL_MODULES = ['HdVerif.Model.SREvidence']
 NAMESPACE = 'HdVerif.C15'
